@@ -284,6 +284,12 @@ pub struct PtSpec {
     /// positions first). The handshake is left alone.
     #[serde(default)]
     pub script_order: u8,
+    /// Legal decorations the packet types of the library do not model (they leave them undecoded):
+    /// bit 0 = every intermediate status carries a TLV container with display texts (04 FF st [to]
+    /// 06 { 24 { 07 .. } }), bit 1 = every plain abort carries a TLV container with an extended error
+    /// code and a text behind its result code (06 1E c 06 { 1F16, 1F17 }).
+    #[serde(default)]
+    pub decorated: u8,
 }
 
 // ---------------------------------------------------------------- state
@@ -482,6 +488,19 @@ enum St {
     AwaitAck { rest: VecDeque<Emit>, req: usize, completes: bool },
     /// A terminating fault was applied: the terminal does nothing more here.
     Dead,
+}
+
+/// `06 1E c`, with a TLV container (extended error code, error text) behind the code if bit 1 is set.
+fn decorated_abort(c: u8, decorated: u8) -> Vec<u8> {
+    if decorated & 2 == 0 {
+        return rc::abort(c, rc::AbortExtra::None);
+    }
+    let mut t = rc::Tlv::prim(0x1f16, &[0x05]).encode();
+    t.extend(rc::Tlv::prim(0x1f17, b"Vorgang abgebrochen").encode());
+    let mut body = vec![c, 0x06];
+    body.extend(rc::ber_len(t.len()));
+    body.extend(t);
+    rc::apdu((0x06, 0x1e), &body)
 }
 
 #[derive(Clone, Debug)]
@@ -798,6 +817,7 @@ impl PtConn {
         // goes out last is "what the terminal reported"
         let mut status_cands: Vec<(Vec<u8>, rc::Status)> = vec![];
         let (codes_kind, tmo) = (pt.spec.status_codes, pt.spec.intermediate_timeout);
+        let decorated = pt.spec.decorated;
         let pre = move |out: &mut Vec<Emit>, n: u8| {
             for i in 0..n {
                 let code = match codes_kind % 4 {
@@ -807,6 +827,19 @@ impl PtConn {
                     _ => [0x0au8, 0x17, 0x41, 0x0e, 0xc7, 0xff, 0x00, 0x4b][(i % 8) as usize],
                 };
                 // (a BCD byte: values up to 99)
+                if decorated & 1 != 0 {
+                    let lines = rc::Tlv::cons(0x24, vec![rc::Tlv::prim(0x07, format!("Bitte Karte {i}").as_bytes()), rc::Tlv::prim(0x07, b"")]);
+                    let mut body = vec![code];
+                    if let Some(t) = tmo {
+                        body.extend(rc::bcd(t.min(99) as u64, 1));
+                    }
+                    let t = lines.encode();
+                    body.push(0x06);
+                    body.extend(rc::ber_len(t.len()));
+                    body.extend(t);
+                    out.push(plain(rc::apdu((0x04, 0xff), &body)));
+                    continue;
+                }
                 out.push(plain(rc::intermediate(code, tmo.map(|t| t.min(99)))));
             }
         };
@@ -826,7 +859,7 @@ impl PtConn {
                 identity: false,
                 effect,
             }),
-            EndSpec::Abort(c) => out.push(plain(rc::abort(c, rc::AbortExtra::None))),
+            EndSpec::Abort(c) => out.push(plain(decorated_abort(c, decorated))),
         };
         match pkt.cf {
             (0x06, 0x00) => {
@@ -914,7 +947,7 @@ impl PtConn {
                 let h = |s: &Option<String>| s.as_ref().map(|x| crate::exchange::hexser::from_hex(x).unwrap_or_default());
                 match &o.kind {
                     CardKind::Abort(c) => out.push(Emit {
-                        frame: rc::abort(*c, rc::AbortExtra::None),
+                        frame: decorated_abort(*c, decorated),
                         delay_ms: o.delay_ms,
                         identity: false,
                         effect: Effect::None,
